@@ -52,6 +52,8 @@ func buildEverything(seed uint64, prop string, o everythingOpts) (*kernel.Trace,
 		distCfg.BaseAddrs = append(distCfg.BaseAddrs, kernel.ActorBech(spec.Clients[i]))
 	}
 	distCfg.BaseAddrs = append(distCfg.BaseAddrs, kernel.ActorBech("sink-0"), kernel.ActorBech("sink-1"))
+	// an eighth of the worlds spell some BASE_ACCOUNT ids in upper case (derived from what is already drawn: the streams of the other worlds stay)
+	distCfg.Respell = kernel.Mix(uint64(spec.GenesisTime.UnixNano()), 9)%8 == 0
 	if o.NatFaults {
 		if r.P(0.6) {
 			distCfg.BlockedBaseAddrs = []string{kernel.ModuleAddr("transfer").String(), kernel.ModuleAddr("interchainaccounts").String(),
